@@ -113,7 +113,7 @@ func genCase(t *rapid.T) (Case, *env.Env) {
 			set[v] = true
 		}
 	}
-	if rapid.IntRange(0, 4).Draw(t, "stop?") == 0 && c.Periods == 0 {
+	if rapid.IntRange(0, 4).Draw(t, "stop?") == 0 {
 		c.StopS = (base+int64(rapid.IntRange(0, int(6*segMS)).Draw(t, "stopd")))/1000 + 1
 		for i := 0; i < 3; i++ {
 			set[c.StopS*1000+int64(rapid.IntRange(-2000, 100000).Draw(t, "after-stop"))] = true
@@ -266,7 +266,7 @@ func checkCase(c Case, e *env.Env) (*hx.Violation, info) {
 	inf.docs = len(all)
 	for i := 1; i < len(all); i++ {
 		a, b := all[i-1], all[i]
-		if b.pubMS < a.pubMS && !b.static {
+		if b.pubMS < a.pubMS {
 			return hx.V("publishtime-decreases", "publishTime %s at %d ms, then %s at %d ms", a.m.PublishTime, a.now, b.m.PublishTime, b.now), inf
 		}
 		if a.static && !b.static {
